@@ -31,10 +31,10 @@ fam('grow-4-8-guard-candkeys', PRE=5, LEN=1, ORD=1, OPSET=1, HEXP=2, NSYM=1, CAL
 # thorough
 for o in range(5):
     fam('2ops-%s' % ORDN[o], tier='thorough', PRE=2, LEN=2, ORD=o, OPSET=0, w=40)
-    fam('reprio-%s' % ORDN[o], tier='thorough', PRE=3, LEN=2, ORD=o, OPSET=2, NSYM=2, w=40)
+    fam('reprio-%s' % ORDN[o], tier='thorough', PRE=3, LEN=2, ORD=o, OPSET=2, NSYM=1, w=40)
 fam('symkeys-2', tier='thorough', PRE=2, LEN=1, ORD=4, CALLERKEYS=1, OPSET=1, w=60)
-fam('candkeys-3ops', tier='thorough', PRE=3, LEN=3, ORD=3, CALLERKEYS=2, OPSET=1, NSYM=1, w=60)
-fam('grow-16-32', tier='thorough', PRE=17, LEN=2, ORD=0, OPSET=1, HEXP=3, NSYM=1, w=30)
+fam('candkeys-2ops-pre3', tier='thorough', PRE=3, LEN=2, ORD=3, CALLERKEYS=2, OPSET=1, NSYM=1, w=60)
+fam('grow-16-32', tier='thorough', PRE=17, LEN=1, ORD=0, OPSET=1, HEXP=3, NSYM=1, w=30)
 
 c = Check('C02')
 src = os.path.join(build.VERIF, 'cbmc', 'order_algebra.c')
@@ -44,7 +44,7 @@ c.run_e1(fams,
          assumptions=['sort keys are exact reals in [-1000, 1000] or full-range int64', 'page size stubbed to 256 bytes (any power of two > 8 satisfies the code)',
                       'allocation never fails', 'caller keys: non-zero, distinct from live keys (documented); quick tier draws them from a 7-element set built to collide (see h_c02.c), one family and the thorough tier use fully symbolic 64-bit keys'],
          bounds=['quick: <= 3 symbolic entries + 1-2 symbolic operations from the full operation set, initial exponents 1-3, growth 2->4->8->16 with 1-2 symbolic entries among concrete fillers',
-                 'thorough: 2-3 operations, growth to 32', 'capacities above 32 and the 2^31 limit are outside'])
+                 'thorough: 2 operations on 2-3 pre-loaded entries, growth to 32 (3 operations and two symbolic entries under reprioritisation did not finish in 2400 s: not claimed)', 'capacities above 32 and the 2^31 limit are outside'])
 c.finish(functions=['cmi_hashheap.c (all but cmi_hashheap_print)', 'heap_order_check', 'guard_queue_check', 'holder_queue_check', 'compare_func', 'default_order_check'],
          trusted=['clang-14 IR of the tree', 'E1 interpreter (paths replayed natively)', 'z3 5.1', 'cbmc 6.11 for the ordering algebra'],
          explanation='operation histories chosen structurally, sort keys/keys/payload patterns symbolic; structural walker after every operation')
